@@ -14,6 +14,7 @@ pub mod c09;
 pub mod c10;
 pub mod c11;
 pub mod c12;
+pub mod c13;
 pub mod c16;
 pub mod c18;
 pub mod c19;
@@ -33,7 +34,7 @@ pub struct PropInfo {
 }
 
 pub fn all() -> Vec<PropInfo> {
-    vec![c01::info(), c02::info(), c03::info(), c04::info(), c05::info(), c06::info(), c08::info(), c09::info(), c10::info(), c11::info(), c12::info(), c16::info(), c18::info(), c19::info()]
+    vec![c01::info(), c02::info(), c03::info(), c04::info(), c05::info(), c06::info(), c08::info(), c09::info(), c10::info(), c11::info(), c12::info(), c13::info(), c16::info(), c18::info(), c19::info()]
 }
 
 pub fn find(id: &str) -> Option<PropInfo> {
